@@ -14,6 +14,7 @@
 (*   f.isunion f.isliteral f.isfinal f.isclassvar f.isnone f.isforwardref  *)
 (*   f.hasnone f.nargs f.lastellipsis f.origin f.istypeddict f.hasfields   *)
 (*   f.userclass f.direct[b]  (issubclass of the object itself, unresolved)*)
+(*   f.originsubtuple  the typing origin is a strict subclass of tuple     *)
 (*                                                                         *)
 (* Def(p, f) is "T" / "F" / "?" (outside the asserted domain).             *)
 (***************************************************************************)
@@ -54,7 +55,8 @@ Def(p, f) ==
          [] p = "isforwardref"   -> B(f.isforwardref)
          [] p = "istypeddict"    -> B(f.istypeddict)
          [] p = "isnamedtuple"   -> B(IsNamedTuple(f))
-         [] p = "isfixedtupletype" -> B(IsFixedTuple(f))
+         \* a parameterised generic named tuple (origin a strict subclass of tuple) is outside the documented domain
+         [] p = "isfixedtupletype" -> (IF f.originsubtuple THEN "?" ELSE B(IsFixedTuple(f)))
          [] p = "isstructuredtype" ->
               (IF IsFixedTuple(f) \/ IsNamedTuple(f) \/ f.istypeddict THEN "T"
                ELSE IF f.isforwardref THEN "?"
